@@ -236,3 +236,11 @@ package nodes
 //@   ensures irreflexive: !a.Less(a)
 //@   use cmpRefl(a.Key[exit(a.Less(a), "i", 1)])
 //@   use cmpRefl(a.Values[exit(a.Less(a), "i", 2)])
+
+// C02 (kernel): an equality condition never matches NULL keys — the inner stream join. The key of a record is the
+// tuple of the side's key expressions in the record's context; a record whose key contains a NULL produces nothing
+// and returns no error (it is not remembered either: the function returns before touching either record tree).
+//@ func (*StreamJoin).receiveRecord
+//@   loop 1 invariant keys: len(key) == len(keyExprs) && forall(j, 0, $k, evalErr(keyExprs[j], ctx) == nil && same(key[j], evalVal(keyExprs[j], ctx)))
+//@   loop 2 invariant nonnull: 0 <= $k && $k <= len(key) && forall(j, 0, $k, key[j].TypeID != 0)
+//@   ensures nullkey: (forall(j, 0, len(keyExprs), evalErr(keyExprs[j], ctx) == nil)) && (exists(j, 0, len(keyExprs), evalVal(keyExprs[j], ctx).TypeID == 0)) ==> result == nil && len(OUT) == old(len(OUT))
